@@ -2,6 +2,7 @@ package main
 
 import (
 	"bytes"
+	"context"
 	"errors"
 	"fmt"
 	"io"
@@ -714,6 +715,13 @@ func buildWriterRouter(cfg wCfg, cur **wRun) *rux.Router {
 			run.wxRouter = r
 			if i == 0 {
 				run.ctx = c
+				// every other request: the first handler gives the request a context.Context that is cancelled when it
+				// returns (what handlers.Timeout does: `defer cancel()`) - the end-of-request commit comes after that
+				if len(run.seg.acts)%2 == 0 {
+					cctx, cancel := context.WithCancel(c.Req.Context())
+					c.Req = c.Req.WithContext(cctx)
+					defer cancel()
+				}
 			}
 			run.site(c, i)
 			if i < k-1 {
